@@ -2,6 +2,8 @@ package rule
 
 import (
 	"errors"
+	"math/big"
+	"strconv"
 
 	"github.com/xuperchain/xupercore/kernel/permission/acl/ptree"
 	pb "github.com/xuperchain/xupercore/protos"
@@ -17,13 +19,14 @@ func NewThresholdValidator() *ThresholdValidator {
 
 // Validate implements the interface of ACLValidator
 func (tv *ThresholdValidator) Validate(pnode *ptree.PermNode) (bool, error) {
-	var weightSum float64
-
 	if pnode == nil {
 		return false, errors.New("Validate: Invalid Param")
 	}
 
-	weightSum = 0
+	// weights are written as decimals in the rule; summing them as binary floats makes
+	// the answer depend on the order of the signers (0.3+0.4+0.1 < 0.8 <= 0.1+0.3+0.4)
+	// and refuses sums that reach the threshold exactly (0.1+0.7 < 0.8), so add decimals
+	weightSum := new(big.Rat)
 	for _, node := range pnode.Children {
 		// the child account/ak must be passed the validation before
 		if node.Status != ptree.Success {
@@ -31,10 +34,22 @@ func (tv *ThresholdValidator) Validate(pnode *ptree.PermNode) (bool, error) {
 		}
 
 		// the child account/ak should be member in ACL list
-		weight := tv.findWeightInACL(node.Name, pnode.ACL)
-		weightSum += weight
+		weight, ok := decimalOf(tv.findWeightInACL(node.Name, pnode.ACL))
+		if !ok {
+			return false, errors.New("Validate: Invalid weight")
+		}
+		weightSum.Add(weightSum, weight)
 	}
-	return (weightSum >= pnode.ACL.Pm.AcceptValue), nil
+	acceptValue, ok := decimalOf(pnode.ACL.Pm.AcceptValue)
+	if !ok {
+		return false, errors.New("Validate: Invalid accept value")
+	}
+	return (weightSum.Cmp(acceptValue) >= 0), nil
+}
+
+// decimalOf returns the shortest decimal that reads back as f, which is what the rule's author wrote
+func decimalOf(f float64) (*big.Rat, bool) {
+	return new(big.Rat).SetString(strconv.FormatFloat(f, 'g', -1, 64))
 }
 
 func (tv *ThresholdValidator) findWeightInACL(name string, acl *pb.Acl) float64 {
